@@ -107,6 +107,7 @@ def main(ck, tier, w):
                     f.write(struct.pack('<II', d.magic, len(ob['raw'])) + ob['raw'])
                 d.record(ob['hdr'], n + 1 + k, btc.VALID_TREE | btc.HAVE_DATA, 1, fno, pos + 8)
                 prev = ob['hash']
+            d.core_extras()          # the per-file records know about the blocks just appended (nHeightLast beyond the active chain)
             import shutil
             shutil.rmtree(os.path.join(d.path, 'index'))
             from lib.ldb import write_leveldb
